@@ -210,9 +210,29 @@ fn supervisor(exe: &str, args: Args) {
     );
 }
 
+struct Sink;
+static SINK: Sink = Sink;
+impl log::Log for Sink {
+    fn enabled(&self, _: &log::Metadata) -> bool {
+        true
+    }
+    fn log(&self, r: &log::Record) {
+        use std::fmt::Write as _;
+        let mut s = String::new();
+        let _ = write!(s, "{}", r.args());
+        std::hint::black_box(&s);
+    }
+    fn flush(&self) {}
+}
+
 fn worker(args: Args) {
     // silent panics: a panic of the code under test is data
     std::panic::set_hook(Box::new(|_| {}));
+    // an application may have a logger installed at any level: the library's log statements then
+    // evaluate and format their arguments, and whatever they touch is part of the call (C01, C19)
+    log::set_logger(&SINK).ok();
+    log::set_max_level(log::LevelFilter::Trace);
+    alloc_track::poison(true);
     let cases = load_cases(&args.cases, args.shard, args.nshards);
     let mut f = OpenOptions::new().append(true).open(&args.out).expect("trace file");
     let mut arena = Arena::new();
